@@ -5,9 +5,10 @@ structure/bonds.pyx::_find_connected behind get_molecule_indices /
 find_connected -- memory safety, monotone visited mask, closure of the newly
 visited atoms under the neighbour table, and a *recursion-depth obligation*
 (the function is a C function that recurses once per newly visited atom); and
-structure/segments.py::get_segment_starts_for / get_segment_positions (behind
-get_residue_/get_chain_ starts_for and positions): for every index the result is
-the segment the atom lies in, ValueError exactly when some index names no atom;
+structure/segments.py::get_segment_starts_for / get_segment_positions /
+get_segment_masks (behind get_residue_/get_chain_ starts_for, positions and masks):
+for every index the result is the segment the atom lies in (the mask row marks
+exactly the atoms of that segment), ValueError exactly when some index names no atom;
 and structure/residues.py::get_residue_starts, structure/chains.py::get_chain_starts:
 the result is 0, then exactly the atoms at which a residue / chain boundary lies
 (ascending), then the number of atoms when the exclusive stop is asked for."""
@@ -28,8 +29,8 @@ ASSUMPTIONS = [
     "that nothing outside the component is visited needs graph reachability and is not claimed",
 ]
 UNVERIFIED = [
-    "the other functions of segments.py (get_segment_masks, apply_/spread_segment_wise, segment_iter) and the wrappers in residues.py / "
-    "chains.py that pass get_*_starts(add_exclusive_stop=True) on to them: 2-d slice assignment, higher-order functions; not under "
+    "the other functions of segments.py (apply_/spread_segment_wise, segment_iter) and the wrappers in residues.py / "
+    "chains.py that pass get_*_starts(add_exclusive_stop=True) on to them: np.repeat, higher-order functions; not under "
     "contract in this build (bounded stand-in only)",
     "get_molecule_indices / get_molecule_masks / molecule_iter drivers, BondList.get_all_bonds",
 ]
@@ -247,6 +248,53 @@ for _kind, _rel, _fn in (("residue", RES, "get_residue_starts"), ("chain", CHN, 
                           ensures=[("starts", ens_segment_starts)], raises={}, timeout=25))
 
 
+# ---- segments.py: get_segment_masks --------------------------------------------------------------------------
+def setup_masks(I):
+    out = setup_seg(I)
+    g = I.ghost["seg"]
+    # ghost: the segment an atom lies in (exists and is unique for `starts` as above; definitional)
+    seg = z3.Function("segment_of", z3.IntSort(), z3.IntSort())
+    c = z3.Int("c!r")
+    I.ctx.assume(z3.ForAll([c], z3.Implies(z3.And(c >= 0, c < g["length"]),
+                                           z3.And(seg(c) >= 0, seg(c) < g["ns"] - 1, z3.Select(g["S"], seg(c)) <= c, c < z3.Select(g["S"], seg(c) + 1)))))
+    g["seg"] = seg
+    return out
+
+
+def _mask_row_is_segment(I, env, M, P, row, col):
+    """mask[row][col] is set  <=>  col lies in the segment with position P[row]"""
+    g = I.ghost["seg"]
+    p = z3.Select(P, row)
+    inside = z3.And(z3.Select(g["S"], p) <= col, col < z3.Select(g["S"], p + 1))
+    return sel2(M, row, col) != 0, inside
+
+
+def inv_masks(I, env):
+    g = I.ghost["seg"]
+    M = env.lookup("masks").arr
+    P = env.lookup("insertion_points").arr
+    i = zint(I.unC(env.lookup("i")))
+    r, c = z3.Ints("r!i c!i")
+    cell, inside = _mask_row_is_segment(I, env, M, P, r, c)
+    return z3.And(z3.ForAll([r, c], z3.Implies(z3.And(r >= 0, r < i, c >= 0, c < g["length"]), cell == inside)),
+                  z3.ForAll([r, c], z3.Implies(z3.And(r >= i, r < g["m"], c >= 0, c < g["length"]), sel2(M, r, c) == 0)))
+
+
+def ens_masks(I, env):
+    g = I.ghost["seg"]
+    res = env.vars["result"]
+    k, c = I.ctx.fresh_int("k"), I.ctx.fresh_int("c")
+    seg = g["seg"]
+    x = z3.Select(g["X"], k)
+    return [("one_row_per_index", natives.eq(I, res.shape[0], g["m"])),
+            ("one_column_per_atom", natives.eq(I, res.shape[1], g["length"])),
+            ("masks_exactly_the_segment_of_the_atom", implies(z3.And(k >= 0, k < g["m"], c >= 0, c < g["length"]),
+                                                              (sel2(res.arr, k, c) != 0) == (seg(c) == seg(x))))]
+
+
+CASES.append(Case(SEG + "::get_segment_masks", setup=setup_masks, overflow=False, ensures=[("masks", ens_masks)],
+                  loops={0: {"invariant": [inv_masks]}},
+                  raises={"ValueError": lambda I, env: I.ghost["seg"]["no_such_atom"]}, timeout=25))
 CASES.append(Case(SEG + "::get_segment_positions", setup=setup_seg, overflow=False, ensures=[("positions", ens_positions)],
                   raises={"ValueError": lambda I, env: I.ghost["seg"]["no_such_atom"]}, timeout=25))
 CASES.append(Case(SEG + "::get_segment_starts_for", setup=setup_seg, overflow=False, ensures=[("starts_for", ens_starts_for)],
